@@ -63,6 +63,19 @@ Proof.
 Qed.
 Print Assumptions C02_rename_to_itself_keeps_the_field.
 
+(* a rename handler that returns something unhashable: a failed renaming at the field's path, the field keeps its name (3b44ca7) *)
+Theorem C02_unhashable_new_name_is_a_failed_renaming :
+  forall x ns d field h ns' newv,
+    assoc_get (KStr "rename_handler") d = Some h -> assoc_mem field (n_map ns) = true ->
+    do_coerce current x ns h field (key_to_value field) false "RENAMING_FAILED" = Ok (ns', newv) ->
+    py_eq newv (key_to_value field) = false -> hashable newv = false ->
+    rename_handler_step current x ns (Some (VDict d)) field =
+    nfile current x ns' field "RENAMING_FAILED" [VStr "The new name must be hashable."].
+Proof.
+  intros x ns d field h ns' newv Hh Hm Hc Hne Hu. unfold rename_handler_step. cbn [rs_has bind]. unfold assoc_mem at 1. rewrite Hh.
+  cbn [negb orb]. rewrite Hm. cbn [negb bind rs_get_default]. rewrite Hh, Hc. cbn [bind]. rewrite Hne, Hu. reflexivity.
+Qed.
+
 Theorem C02_unknown_rules_only_on_unknown_fields :
   forall x ns rsch f rs,
     assoc_get f rsch = Some rs -> rs_has "_normalize_coerce" rs "coerce" = Ok false ->
